@@ -94,7 +94,67 @@ def fields_case(c):
   return {'impl': safe(lambda: go(True)), 'ref': safe(lambda: go(False))}
 
 
+def autoname_probe():
+  """lifted helper methods / branch functions that create AUTO-NAMED sub-modules: identity map_variables(init=True) in decorator form, and
+  nn.cond / nn.switch with an auto-named layer in every branch: the variable tree of init and the outputs are those of the plain code"""
+  out = []
+  const = lambda v: nn.initializers.constant(v)
+  shapes = lambda t: sorted(('/'.join(str(getattr(k, 'key', k)) for k in p), tuple(a.shape)) for p, a in jax.tree_util.tree_flatten_with_path(flax.core.unfreeze(t))[0])
+  x = jnp.ones((2, 3))
+
+  def mapvars(lifted):
+    def block(self, x):
+      return nn.Dense(4, kernel_init=const(0.5))(x) + nn.Dense(4, kernel_init=const(0.25))(x)
+    if lifted:
+      block = nn.map_variables(block, 'params', init=True)
+
+    class M(nn.Module):
+      _block = block
+
+      @nn.compact
+      def __call__(self, x):
+        x = nn.Dense(4, kernel_init=const(1.0))(x)
+        x = self._block(x)
+        return nn.Dense(2, kernel_init=const(2.0))(x)
+    return M()
+
+  def branches(kind):
+    class M(nn.Module):
+      @nn.compact
+      def __call__(self, x, i):
+        def b0(mdl, x):
+          return nn.Dense(2, kernel_init=const(0.5))(x)
+
+        def b1(mdl, x):
+          return -nn.Dense(2, kernel_init=const(0.5))(x)
+        if kind == 'plain':
+          y = b1(self, x) if i else b0(self, x)
+        elif kind == 'cond':
+          y = nn.cond(i == 1, b1, b0, self, x)
+        else:
+          y = nn.switch(i, [b0, b1], self, x)
+        return nn.Dense(1, kernel_init=const(1.0))(y)
+    return M()
+
+  def run(name, plain, lifted, *args):
+    try:
+      yp, vp = plain.init_with_output(jax.random.key(0), x, *args)
+      yl, vl = lifted.init_with_output(jax.random.key(0), x, *args)
+      ya = lifted.apply(vp, x, *args)
+      out.append({'case': name, 'same_tree': shapes(vp) == shapes(vl), 'same_init_out': bool(np.allclose(yp, yl)), 'same_apply_out': bool(np.allclose(ya, plain.apply(vp, x, *args))),
+                  'plain': [p for p, _ in shapes(vp)], 'lifted': [p for p, _ in shapes(vl)]})
+    except Exception as e:  # pylint: disable=broad-except
+      out.append({'case': name, 'err': type(e).__name__, 'msg': str(e)[:200]})
+  run('map_variables(init=True) on a helper method', mapvars(False), mapvars(True))
+  for kind in ('cond', 'switch'):
+    for i in (0, 1):
+      run('nn.%s with an auto-named layer per branch, branch %d' % (kind, i), branches('plain'), branches(kind), i)
+  return out
+
+
 def main(payload):
+  if payload.get('autoname'):
+    return {'autoname': autoname_probe()}
   return {'fields': [fields_case(c) for c in payload.get('fields', [])]}
 
 
